@@ -45,8 +45,8 @@ Proof.
   - exists (mkPsbt 1%N 1 [blank]), 0, false, 10%N. reflexivity.
 Qed.
 
-Definition ex_step := step ex_try ex_interp ex_desc ex_flag ex_flag ex_mall false.
-Definition ex_run := run ex_try ex_interp ex_desc ex_flag ex_flag ex_mall false.
+Definition ex_step := step ex_try ex_interp ex_desc ex_flag ex_flag ex_mall.
+Definition ex_run := run ex_try ex_interp ex_desc ex_flag ex_flag ex_mall.
 
 (* finalize_mut with input 0 signed and input 1 unsigned: the call returns an error for
    input 1, input 1 is untouched, input 0 has been finalized all the same. *)
@@ -55,7 +55,7 @@ Lemma finalize_partial_progress :
   let '(st', r) := ex_step st (Finalize false) in
   r = RFinErrs [(1, 10%N)] /\
   nth_error (p_inputs st') 1 = nth_error (p_inputs st) 1 /\
-  nth_error (p_inputs st') 0 = Some (cleared false (set_psigs blank [(1%N, 1%N)]) 5%N 6%N) /\
+  nth_error (p_inputs st') 0 = Some (cleared (set_psigs blank [(1%N, 1%N)]) 5%N 6%N) /\
   st' <> st.
 Proof. vm_compute. repeat split; try reflexivity. discriminate. Qed.
 
@@ -70,7 +70,7 @@ Lemma history_example :
   let st := mkPsbt 1%N 2 [blank; blank] in
   let ops := [AddSig 0 3%N 4%N; Finalize false; AddSig 1 5%N 6%N; FinalizeInp 1 false;
               Finalize false; Finalize true; Extract] in
-  map fst (trace ex_try ex_interp ex_desc ex_flag ex_flag ex_mall false ops st) =
+  map fst (trace ex_try ex_interp ex_desc ex_flag ex_flag ex_mall ops st) =
   [ROk; RFinErrs [(1, 10%N)]; ROk; ROk; ROk; ROk;
    RExtracted [(Some 5%N, Some 6%N); (Some 5%N, Some 6%N)]].
 Proof. vm_compute. reflexivity. Qed.
